@@ -92,7 +92,12 @@ HAND = {
                  "<< /Differences [0 /a 2 /b /c 128 /d 255 /e] >>", "<< /Differences [2 /x] >>", "<< /BaseEncoding /MacRomanEncoding >>"],
     "Font": ["<< /Type /Font /Subtype /Type1 /BaseFont /Helvetica /FirstChar 65 /LastChar 66 /Widths [500 600] /Encoding << /Type /Encoding /Differences [1 /bullet /dagger 40 /x] >> >>",
              "<< /Type /Font /Subtype /TrueType /BaseFont /Arial /FirstChar 32 /LastChar 33 /Widths [250 300] /Encoding /WinAnsiEncoding /Name /F7 >>",
-             "<< /Type /Font /Subtype /Type1 /BaseFont /Symbol >>"],
+             "<< /Type /Font /Subtype /Type1 /BaseFont /Symbol >>",
+             # the other kinds of font dictionary: whatever the reader makes of them, a written form keeps the entries of the input
+             "<< /Type /Font /Subtype /MMType1 /BaseFont /Minion_367_585 /FirstChar 65 /LastChar 66 /Widths [500 600] /Name /F8 >>",
+             "<< /Type /Font /Subtype /Type3 /FontBBox [0 0 1 1] /FontMatrix [0.001 0 0 0.001 0 0] /CharProcs << >> /Encoding << /Type /Encoding /Differences [] >> /FirstChar 65 /LastChar 65 /Widths [500] /Name /F9 >>",
+             "<< /Type /Font /Subtype /Type0 /BaseFont /A /Encoding /Identity-H /DescendantFonts [] /Name /F10 >>",
+             "<< /Type /Font /Subtype /CIDFontType2 /BaseFont /A /CIDSystemInfo << /Registry (Adobe) /Ordering (Identity) /Supplement 0 >> /DW 750 /W [1 [500 600] 10 12 700] /FontDescriptor << /Type /FontDescriptor /FontName /A /Flags 4 /FontBBox [0 0 1 1] /ItalicAngle 0 /Ascent 1 /Descent 0 /CapHeight 1 /StemV 1 >> >>"],
     "Matrix": ["[1 2 3 4 5 6]", "[0.5 0 0 -0.5 10 20]"],
     "Rectangle": ["[1 2 30 40]", "[-5 -6 7.5 8]"],
     "Date": ["(D:20240229235958+05'30)", "(D:20240229235958Z)", "(D:20240229235958-08'00)", "(D:19991231000000+00'00)"],
